@@ -10,8 +10,9 @@ def build(n, edges, elements=None):
     m = ml.Molecule()
     for i in range(n):
         m.add_atom(ml.Atom(elements[i] if elements else "C", label=f"a{i}"), [float(i), 0.0, 0.0], 0.0)
-    for p, q in edges:
-        m.connect(p, q)
+    for k, (p, q) in enumerate(edges):
+        # bonds are stored in either orientation (every third one with the later atom first)
+        (m.connect(q, p) if (k + p + q) % 3 == 0 else m.connect(p, q))
     return m
 
 
@@ -55,6 +56,14 @@ def check_graph(n, edges):
             got_i = [(a.idx, dd) for a, dd in m.yield_bfsd(*iargs)]
             if got_i != got:
                 bad.append(f"yield_bfsd on edges={edges} with atoms given by index start={s} direction={d}: {got_i}, by atom object: {got}")
+    for s_ in range(n):
+        # adjacency queries with the atom given by object and by index
+        a = m.atoms[s_]
+        ref_b = [b for b in m.bonds if a in b]
+        for arg in (a, s_):
+            if list(m.bonds_with_atom(arg)) != ref_b or m.n_bonds_with_atom(arg) != len(ref_b) or abs(m.bonded_valence(arg) - sum(b.order for b in ref_b)) > 1e-9 \
+                    or [x.idx for x in m.connected_atoms(arg)] != [(b % a).idx for b in ref_b]:
+                bad.append(f"adjacency queries for atom {s_} given as {type(arg).__name__} disagree with the bond list on edges={edges}")
     for k, (p, q) in enumerate(edges):
         rest = [e for j, e in enumerate(edges) if j != k]
         bridge = q not in ref_bfs(n, rest, p)
